@@ -1658,8 +1658,15 @@ impl<'a, const C: usize, const R: usize, T: 'a + Copy + std::fmt::Debug> Layout<
             // This is not a tick, so no custom event can be reported from here. Presses are lost,
             // as is everything else that does not fit into the queue; a release must not be.
             let mut custom = CustomEvent::NoEvent;
-            for i in -1..(EXTRA_WAITING_LEN as i8) {
-                let ev = self.waiting_into_hold(i);
+            let ev = self.waiting_into_hold(-1);
+            self.update_or_postpone_release(&mut custom, ev);
+            // Each call removes the entry it resolves and the others move up: it is always the
+            // first one that is next. Counting the index up would skip every second entry.
+            for _ in 0..EXTRA_WAITING_LEN {
+                if self.extra_waiting.is_empty() {
+                    break;
+                }
+                let ev = self.waiting_into_hold(0);
                 self.update_or_postpone_release(&mut custom, ev);
             }
             let ev = self.dequeue(overflow);
